@@ -328,6 +328,10 @@ func newInterp() *fast.Interp {
 	ir.DeclFunc("callError", callError)
 	ir.DeclFunc("applyN", applyN)
 	ir.DeclFunc("inGoroutine", inGoroutine)
+	ir.DeclFunc("joinStringers", joinStringers)
+	ir.DeclFunc("joinErrors", joinErrors)
+	ir.DeclFunc("sortedState", sortedState)
+	ir.DeclFunc("strOf", strOf)
 	ir.Eval(importSrc)
 	return ir
 }
@@ -351,6 +355,7 @@ func runOracle(a *vh.Args, repo string, progs []prog) ([]string, error) {
 	sb.WriteString("// GENERATED by harness/cmd/c11: the same programs, compiled.\npackage main\n\n" + importSrc + "\nimport \"encoding/json\"\nimport \"os\"\n\n")
 	sb.WriteString("var _ = bufio.NewReader\nvar _ = bytes.Map\nvar _ = heap.Init\nvar _ = errors.New\nvar _ = io.EOF\nvar _ = ioutil.ReadAll\nvar _ = math.Max\nvar _ = sort.Sort\nvar _ = strconv.Itoa\nvar _ = strings.Map\nvar _ sync.Once\nvar _ = time.AfterFunc\nvar _ = fmt.Sprint\n")
 	sb.WriteString(helperSrc)
+	sb.WriteString(aliasHelperSrc)
 	for _, p := range progs {
 		sb.WriteString("\n// ---- " + p.Name + " (" + p.Kind + ")\n" + p.funcSrc())
 	}
@@ -567,16 +572,18 @@ func vtableCases(a *vh.Args, rep *vh.Report, ir *fast.Interp, rng *vh.Rng, n int
 func main() {
 	a := vh.ParseArgs()
 	rng := vh.NewRng(a.Seed)
-	rep := vh.NewReport(a, "PRNG programs from 8 templates (sort.Slice/SliceStable/Search with interpreted less; interpreted sort.Interface incl. pointer variables with value receivers, "+
+	rep := vh.NewReport(a, "PRNG programs from 10 template families (value semantics of conversions to compiled interfaces [alias.go]: random sequences of convert / mutate the original place / use over addressable struct and array values (variables, slice elements, fields, pointees), conversions by assignment, explicit conversion, helper return, append in a loop; "+
+		"one conversion site executed 2..4 times with all results kept alive: constructor returning error / sort.Interface / heap.Interface called repeatedly, io.Readers collected in a loop for io.MultiReader, map store / channel send / closure results in a loop; "+
+		"sort.Slice/SliceStable/Search with interpreted less; interpreted sort.Interface incl. pointer variables with value receivers, "+
 		"sort.Reverse; strings.Map/FieldsFunc/IndexFunc/TrimFunc, bytes.Map, compiled helper applying an interpreted func; fmt.Stringer and error through compiled helpers taking that interface type; "+
 		"interpreted io.Reader through io.Copy/ioutil.ReadAll/io.ReadFull/bufio, interpreted io.Writer through fmt.Fprintf/io.WriteString/io.Copy; heap.Interface; callbacks run on goroutines not started by the interpreter: "+
 		"compiled parallelMap, time.AfterFunc, sync.Once, compiled inGoroutine; compiled std functions called with interpreted arguments), each run in the interpreter and compiled with go build (go 1.18 module), outputs compared; "+
 		"avoided class (known finding c11:proxy-unwrapped-into-empty-interface): a proxied interpreted value passed to a compiled parameter of type interface{}; corpus programs run first. "+
 		"Plus every method of every P_* proxy of imports.Packages called through its interface with PRNG arguments (recording closures in the fields). Plus vtable cases: random interpreted method sets converted to 10 compiled interfaces, every proxy field called to identify the stored method (model: coq/C11 fill). "+
 		"A program is non-trivial when at least one interpreted function or method was invoked by compiled code (all templates); distinct by SHA-256 of the source")
-	nProg, nVt := 120, 150
+	nProg, nVt := 180, 150
 	if a.Thorough() {
-		nProg, nVt = 3000, 2500
+		nProg, nVt = 4500, 2500
 	}
 	if a.N > 0 {
 		nProg = a.N
@@ -586,7 +593,11 @@ func main() {
 	for i := 0; i < nProg; i++ {
 		g := &gen{r: rng, k: fmt.Sprintf("p%d", i)}
 		var p prog
-		switch x := rng.Intn(16); {
+		switch x := rng.Intn(24); {
+		case x >= 20:
+			p = g.aliasProg()
+		case x >= 16:
+			p = g.multiSite()
 		case x < 2:
 			p = g.sortSlice()
 		case x < 5:
